@@ -15,6 +15,7 @@ import (
 	"math/rand"
 	"os"
 	"path/filepath"
+	"sync"
 	"time"
 
 	"github.com/btcsuite/btcd/btcutil/hdkeychain"
@@ -33,7 +34,7 @@ const P = "C17"
 
 func main() {
 	r := evid.New(P, "exploration")
-	r.Rule("plaintext lengths x (round trip, independent secretbox open, every single-bit flip, every truncation, wrong keys); nonce distinctness over repeated encryptions; passphrases x (exact, every single-byte edit/deletion/insertion/case flip, empty, prefix/suffix); parameter blobs x (round trip, every wrong length, every byte edit); a real waddrmgr.Manager: Encrypt/Decrypt of the three key types with every bit flip and truncation, and four private passphrase changes (locked or unlocked) each followed, in the state the change left behind, from the locked state and after reopening, by Unlock with every previous passphrase (newest first), a near miss and the current one (twice). A case is non-trivial when it contains at least one rejected mutation; distinct = distinct (kind,length/passphrase) pairs.")
+	r.Rule("plaintext lengths x (round trip, independent secretbox open, every single-bit flip, every truncation, wrong keys); nonce distinctness over repeated encryptions, sequentially and from 8..16 goroutines at once; passphrases x (exact, every single-byte edit/deletion/insertion/case flip, empty, prefix/suffix); parameter blobs x (round trip, every wrong length, every byte edit); a real waddrmgr.Manager: Encrypt/Decrypt of the three key types with every bit flip and truncation, and four private passphrase changes (locked or unlocked) each followed, in the state the change left behind, from the locked state and after reopening, by Unlock with every previous passphrase (newest first), a near miss and the current one (twice). A case is non-trivial when it contains at least one rejected mutation; distinct = distinct (kind,length/passphrase) pairs.")
 	r.Trusted("golang.org/x/crypto/nacl/secretbox (independent open)", "golang.org/x/crypto/scrypt (independent derivation)", "crypto/sha256")
 	r.Assume("scrypt N=16,r=8,p=1 is used for speed; the code path is parameter-independent")
 	rng := rand.New(rand.NewSource(r.Seed))
@@ -58,6 +59,9 @@ func main() {
 	})
 	if r.ReplayOf() == nil || r.ReplayOf().Phase == "nonce" {
 		nonceCase(r, r.N(3000, 200000))
+	}
+	if r.ReplayOf() == nil || r.ReplayOf().Phase == "nonce-concurrent" {
+		concurrentNonceCase(r, r.N(8, 16), r.N(4000, 60000))
 	}
 	npass := r.N(12, 1500)
 	r.Parallel("passphrase", npass, evid.Workers(), func(i int, cs int64) {
@@ -168,6 +172,49 @@ func cipherCase(r *evid.Run, rg *rand.Rand, n int, cs int64) {
 	if r.WantSample() && n > 0 && n < 40 {
 		r.Sample(map[string]any{"kind": "cipher", "plaintext_len": n, "ciphertext_len": len(ct), "bitflips_tried": rejected, "truncations_tried": tr, "wrong_keys_tried": wk})
 	}
+}
+
+// concurrentNonceCase: the same plaintext encrypted under the same key by
+// several goroutines at once (scoped managers and wallets encrypt in parallel
+// without a common lock): still no two equal ciphertexts, no nonce used twice.
+func concurrentNonceCase(r *evid.Run, g, n int) {
+	key, _ := snacl.GenerateCryptoKey()
+	pt := []byte("same plaintext, many goroutines")
+	outs := make([][][]byte, g)
+	var wg sync.WaitGroup
+	start := make(chan struct{})
+	for i := 0; i < g; i++ {
+		wg.Add(1)
+		go func(i int) {
+			defer wg.Done()
+			<-start
+			for k := 0; k < n; k++ {
+				ct, err := key.Encrypt(pt)
+				if err != nil {
+					return
+				}
+				outs[i] = append(outs[i], ct)
+			}
+		}(i)
+	}
+	close(start)
+	wg.Wait()
+	seen := map[string]bool{}
+	total := 0
+	for i := range outs {
+		for _, ct := range outs[i] {
+			total++
+			if len(ct) < 24 {
+				continue
+			}
+			if seen[string(ct[:24])] {
+				r.Violation("nonce-reuse-under-concurrency", fmt.Sprintf("%d goroutines x %d encryptions of one plaintext under one key: a 24-byte nonce was used twice (after %d ciphertexts)", g, n, total), "nonce-concurrent", 0, nil)
+				return
+			}
+			seen[string(ct[:24])] = true
+		}
+	}
+	r.Hit("concurrent_encryptions_distinct_nonces", total)
 }
 
 func nonceCase(r *evid.Run, n int) {
